@@ -140,10 +140,10 @@ def run_pair(job):
     out['pair'] = (name_a, name_b, nb)
     nb = max(nb, 2)
     ks = list(range(1, int(nb * 1.05) + 2))
-    if k_hi is not None:
-        ks = [k for k in ks if k_lo <= k <= k_hi]
     if cap and len(ks) > cap:
         ks = sorted(random.Random(mix(seed, SWEEP_OFFSET + 7 * idx + 1)).sample(ks, cap))
+    if k_hi is not None:
+        ks = [k for k in ks if k_lo <= k <= k_hi]
     sk, pl = set(), set()
     for k in ks:
         p = copy.deepcopy(plan)
